@@ -324,7 +324,7 @@ func Mergeable(rng *rand.Rand, opt Options) []*Service {
 		for si := 0; si < n; si++ {
 			if rng.Intn(2) == 0 {
 				d := ss[si].ensure("INPUT_OBJECT", "Filter")
-				d.Fields = []Field{{Name: "q", Type: "String"}, {Name: "limit", Type: "Int"}}
+				d.Fields = []Field{{Name: "q", Type: "String"}, {Name: "limit", Type: "Int = 10"}, {Name: "tags", Type: "[String!] = [\"a\", \"b\"]"}}
 			}
 		}
 	}
@@ -533,8 +533,25 @@ func Conflict(rng *rand.Rand, base []*Service, kind string) (out []*Service, ok 
 		nf := Field{Name: f.Name, Type: "String"}
 		b.ensure("OBJECT", "Query").Fields = append(b.Def("Query").Fields, nf)
 	case "kind_clash":
-		a.ensure("OBJECT", "Clash").Fields = []Field{{Name: "x", Type: "Int"}}
-		b.ensure("ENUM", "Clash").EValues = []string{"A", "B"}
+		// any two different kinds under one name, in either order of the service list
+		kinds := []string{"OBJECT", "ENUM", "SCALAR", "INPUT_OBJECT", "INTERFACE"}
+		ka := rng.Intn(len(kinds))
+		kb := rng.Intn(len(kinds) - 1)
+		if kb >= ka {
+			kb++
+		}
+		mk := func(s *Service, k string) {
+			d := s.ensure(k, "Clash")
+			switch k {
+			case "ENUM":
+				d.EValues = []string{"A", "B"}
+			case "SCALAR":
+			default:
+				d.Fields = []Field{{Name: "x", Type: "Int"}}
+			}
+		}
+		mk(a, kinds[ka])
+		mk(b, kinds[kb])
 	case "node_mismatch":
 		addNode(a)
 		da := a.ensure("OBJECT", "Mis")
